@@ -26,9 +26,10 @@ const (
 	rkRestartCb
 	rkListen
 	rkHandover // the old listener's File() fails while the new instance takes over
+	rkPanic    // a directive's setup panics
 )
 
-var rkNames = []string{"ok", "parse", "setup", "startupcb", "restartcb", "listen", "handover"}
+var rkNames = []string{"ok", "parse", "setup", "startupcb", "restartcb", "listen", "handover", "setup-panic"}
 
 type verSpec struct {
 	label string
@@ -135,6 +136,9 @@ func (r *reloadRig) configText(v int) string {
 				b.WriteString("\tgzip {\n\t\tmin_length 0\n\t}\n")
 			}
 		}
+		if ver.kind == rkPanic && i == len(ver.hosts)-1 {
+			b.WriteString("\tsimfail panic\n")
+		}
 		if ver.kind == rkParse && i == len(ver.hosts)-1 {
 			if r.st.Draw(2) == 0 {
 				b.WriteString("\tnosuchdirective x\n}\n")
@@ -204,7 +208,7 @@ func runReload(c *sim.Ctl) {
 	for k := 1; k <= nops; k++ {
 		kind := rkOK
 		if st.Draw(2) == 1 {
-			kind = 1 + st.Draw(6)
+			kind = 1 + st.Draw(7)
 		}
 		r.vers = append(r.vers, r.genVersion(k, kind))
 		r.ops = append(r.ops, &opRec{idx: k, ver: k, kind: kind, start: -1, end: -1, parkCbs: st.Draw(2) == 0})
@@ -263,6 +267,12 @@ func runReload(c *sim.Ctl) {
 				}
 				in, err = r.inst.Restart(w.Input(texts[op.ver]))
 				w.N.FileErr = nil
+				if err == nil && op.kind == rkPanic {
+					// a reload that blew up must not be reported as done; the running instance stays the one it was
+					c.Violate("C07/panicking-reload-reported-as-success", "", "reload %d, whose configuration makes a directive's setup panic, returned no error (instance returned: %v)", op.idx, in != nil)
+					err = fmt.Errorf("(reported as success)")
+					in = nil
+				}
 				if err == nil {
 					r.inst = in
 					r.curVer = op.ver
